@@ -1,3 +1,3 @@
 #!/bin/sh
 # Development aid: quick checks (4 at a time) on every refactoring of benign round 2 (out2/).
-ls -d /tmp/seedwork/B*/out2/R* | xargs -P 4 -I{} sh -c '[ -f {}/patch.diff ] || exit 0; out=$(/verif/tools/try_seed.sh {}/patch.diff quick 2>&1); echo "$out" > {}/checks.txt; echo "$(echo {} | sed "s#/tmp/seedwork/##") $(echo "$out" | grep DETECTED-BY)"' | sort
+ls -d /tmp/seedwork/B*/out2/R* | xargs -P 12 -I{} sh -c '[ -f {}/patch.diff ] || exit 0; out=$(/verif/tools/try_seed.sh {}/patch.diff quick 2>&1); echo "$out" > {}/checks.txt; echo "$(echo {} | sed "s#/tmp/seedwork/##") $(echo "$out" | grep DETECTED-BY)"' | sort
